@@ -294,6 +294,24 @@ def generate(ctx):
         plans.append({"id": i, "variant": variant, "k": k, "graph": kind, "gseed": rng.next(), "perms": [list(p) for p in perms], "fault": fault,
                       "funcs_only": [x for x in range(k) if rng.chance(1, 10) and kind != "dense-cycle"], "enum_only": [x for x in range(k) if rng.chance(1, 10) and kind != "dense-cycle"],
                       "consts_only": [x for x in range(k) if rng.chance(1, 12) and kind != "dense-cycle"], "mode": rng.choice(["native"] * 5 + ["python", "c", "default"]), "extra": rng.choice([[], [], ["-python"], ["-track-interpreter"], ["-import", "other.mod"], ["-init", "extra_init"]])})
+    # stratum of plain scenarios: every graph family in native mode without faults or member-less libraries, so that the
+    # ordering clauses are exercised by each family in every batch however the dimensions above happen to combine
+    base = len(plans)
+    per = 8 if ctx.tier == "quick" else 150
+    for ki, kind in enumerate(sorted(set(KINDS))):
+        lo = {"chain": 2, "dag": 1, "diamond": 4, "forest": 2, "cycle2": 2, "cycleN": 4, "cycle-out": 4, "sccs": 5, "hidden-chain": 2}[kind]
+        for j in range(per):
+            rng = run_rng(ctx.seed, NAME + "/plain/" + kind, j)
+            variant = "real" if j % 2 else "synth"
+            k = rng.range(max(lo, 3), 6) if variant == "real" else rng.range(max(lo, 3), 8)
+            if k <= 4:
+                perms = list(itertools.permutations(range(k)))
+                if ctx.tier == "quick" and len(perms) > 8:
+                    perms = rng.sample(perms, 8)
+            else:
+                perms = [rng.shuffle(range(k)) for _ in range(24 if ctx.tier == "thorough" else 8)]
+            plans.append({"id": base + ki * per + j, "variant": variant, "k": k, "graph": kind, "gseed": rng.next(), "perms": [list(p) for p in perms], "fault": None,
+                          "funcs_only": [], "enum_only": [], "consts_only": [], "mode": "native", "extra": []})
     return plans
 
 
